@@ -21,7 +21,9 @@ Binding
  (c) spec -> code: the history machine is explored to 4 calls; its histories (thorough: every 4-call history; quick: every
      3-call history, the 4-call family fresh(X), reuse, override(Y # X), reuse, and a seeded sample of the other 4-call
      ones) are replayed with real tile_fits calls on one real directory, all calls of a history in one process, the
-     directory named in turn by its absolute path, a relative path and a differently spelled relative path.  A second
+     directory named in turn by its absolute path, a relative path and a differently spelled relative path (and, for the
+     fresh ; override(other) ; reuse histories, also through a symbolic link - an override refused loudly ends the history -
+     and by a name containing $VAR, ${VAR}, %s as plain characters with the variable pointing elsewhere).  A second
      exploration (3 calls) lets one call of a history be INTERRUPTED after its tiles and before its index (Ctrl-C raised by
      the hook between the last tile and the index, or when the cascade starts; for a single TAN image also the natural
      route, a keyword the cascade rejects), leaving the PARTIAL directory, and lets calls come through `toasty view`;
@@ -347,6 +349,16 @@ def _spell(outdir, style):
     name = os.path.basename(outdir)
     if style == "rel":
         return name
+    if style == "symlink":          # a symbolic link to the directory, once the directory exists (a dangling link cannot be
+        #                             tiled into); before that, the directory's own name
+        if not os.path.isdir(outdir):
+            return name
+        if not os.path.lexists(os.path.join(os.path.dirname(outdir), "lnk")):
+            os.symlink(name, os.path.join(os.path.dirname(outdir), "lnk"))
+        return "lnk"
+    if style == "literal":          # the name contains $VAR, ${VAR} and %s, which are just characters of a directory name;
+        #                             the working directory is two levels up and the variable points somewhere else
+        return os.path.join(os.path.basename(os.path.dirname(outdir)), name)
     os.makedirs(os.path.join(os.path.dirname(outdir), "x"), exist_ok=True)
     return os.path.join("x", os.pardir, name)          # x/../out
 
@@ -369,7 +381,12 @@ def run_workflow(wf):
     cwd = os.getcwd()
     try:
         with contextlib.redirect_stdout(sink), contextlib.redirect_stderr(sink):
-            if wf.get("path_style", "abs") != "abs":
+            if wf.get("path_style", "abs") == "literal":
+                top = os.path.dirname(os.path.dirname(outdir))
+                os.makedirs(os.path.join(top, "elsewhere"), exist_ok=True)
+                os.environ["C17VAR"] = os.path.join(top, "elsewhere")
+                os.chdir(top)
+            elif wf.get("path_style", "abs") != "abs":
                 os.chdir(os.path.dirname(outdir))       # the directory is named relative to the working directory
             import warnings
             from toasty import cli, tile_fits, TilingMethod
@@ -398,6 +415,12 @@ def run_workflow(wf):
                         try:
                             odir, bld = tile_fits(arg["fits"], out_dir=given, parallel=1, override=arg["override"],
                                                   tiling_method=getattr(TilingMethod, arg["method"]), **kw)
+                        except OSError as e:
+                            # shutil.rmtree refuses a symbolic link: the override is refused loudly and the directory stays
+                            # as it was, which is consistent; the history ends here (the machine does not model a refusal)
+                            if not (wf.get("path_style") == "symlink" and arg["override"] and os.path.islink(given)):
+                                raise
+                            extra["refused"] = repr(e)
                         except (_Interrupted, TypeError) as e:
                             if not how or (isinstance(e, TypeError) and how != "kw"):
                                 raise
@@ -428,6 +451,8 @@ def run_workflow(wf):
                 o = _observe(outdir, log)
                 o.update(extra)
                 out["obs"].append(o)
+                if "refused" in extra:
+                    break
     except BaseException as e:  # noqa  (SystemExit from cli.die included)
         out["error"] = "%r\n%s" % (e, traceback.format_exc()[-1500:])
     finally:
@@ -883,6 +908,20 @@ def run(ctx):
                 w["path_style"] = ("abs", "rel", "respelled")[nother % 3]
                 nother += 1
             hflows.append(w)
+        # out_dir given as a symbolic link to the directory, and as a name whose characters include $VAR, ${VAR} and %s (with
+        # the variable set and pointing elsewhere): every 3-call history fresh(X) ; override(Y # X) ; reuse over the first two
+        # inputs is replayed once more in each of these spellings
+        nbase = len(hflows)
+        for h in [h for h in allh if len(h) == 3 and [st["kind"] for st in h] == ["fresh", "override", "reuse"]
+                  and h[0]["input"] != h[1]["input"] and not h[0]["override"] and set(st["input"] for st in h) <= set(hist_inputs[:2])]:
+            for style in ("symlink", "literal"):
+                w = wf("hist-%d" % len(hflows), [step_of(st, False) for st in h], "tile_fits-history")
+                w["spec"] = h
+                w["path_style"] = style
+                if style == "literal":
+                    w["outdir"] = os.path.join(os.path.dirname(w["outdir"]), "$C17VAR", "out-${C17VAR}-%s")
+                hflows.append(w)
+        ctx.note("history_replays_symlink_or_literal_name", len(hflows) - nbase)
         ctx.note("history_replay_selection", {"explored_calls": 4, "replayed": len(hists), "of_4_calls": sum(1 for h in hists if len(h) == 4),
                                               "fresh_reuse_override_reuse": sum(1 for h in hists if stale_shape(h))})
         pending_h = pool.map_async(run_workflow, hflows, chunksize=2)
@@ -936,8 +975,10 @@ def run(ctx):
                 if c is None and not o["wtml"] and "spec" in w and not w["spec"][k]["indexed"]:
                     continue        # an interrupted run / a reuse of what it left: no index, no claim to judge
                 if c is None:
-                    ctx.violation("C17:%s:no-wtml" % w["group"], "%s step %d: index_rel.wtml is missing or does not hold exactly one ImageSet with a Url: %r"
-                                  % (w["name"], k, o["wtml"]), {"workflow": w["name"], "steps": _steps(w)})
+                    ctx.violation("C17:%s:no-wtml" % w["group"], "%s step %d (%s; out_dir spelled %s): the directory the caller named holds %d tile files and "
+                                  "index_rel.wtml is missing or does not hold exactly one ImageSet with a Url: %r"
+                                  % (w["name"], k + 1, " ; ".join(_steps(w)[:k + 1]), w.get("path_style", "abs"), len(o["files"]), o["wtml"]),
+                                  {"workflow": w["name"], "steps": _steps(w), "out_dir_spelling": w.get("path_style", "abs")})
                     continue
                 judged.append((w, k, o, c))
         outj = os.path.join(ctx.scratch, "judge.json")
